@@ -224,12 +224,16 @@ def gen_behaviours(profile, seed, count, length, path):
 # trace validation
 
 
-def trace_check(wd, name, trace, props, nkeys, layer_i=True, period=1280, timeout=900, dev=()):
+SDEV = ("F6", "F8")   # deviations of the concurrent cache currently present in /repo
+
+
+def trace_check(wd, name, trace, props, nkeys, layer_i=True, period=1280, timeout=900, dev=(), sdev=SDEV):
     """Validates a recorded trace file. Returns dict with viol (list of (prop,bid,line)),
     drift (list of (bid,line)), stats."""
     cfg = os.path.join(wd, name + ".cfg")
     write_cfg(cfg, constants={"NKeys": nkeys, "Batch": 100, "Period": period, "Dev": set(dev),
-                              "CheckProps": set(props), "LayerI": layer_i},
+                              "CheckProps": set(props), "LayerI": layer_i,
+                              "MaxInfo": max(12, 3 * nkeys), "SDev": set(sdev)},
               postcondition="Consumed")
     rc, outp, wall = run_tlc(wd, "TraceCheck.tla", cfg, workers=1, timeout=timeout, out=name + ".out",
                              depth_first=True, xmx="6g", env_extra={"TRACE": trace})
